@@ -87,8 +87,13 @@ int main(int argc, char **argv) {
   // used up.  The budget only truncates the exploration (reported as rounds_done / rounds), it never decides a verdict.
   double budget = atof(arg_of(argc, argv, "--budget", "0").c_str());
   int rounds = std::max(1, atoi(arg_of(argc, argv, "--rounds", "1").c_str()));
-  long total_n = 0;
-  for (auto &sub : prop.subs) { if (!only.empty() && only != sub.name) continue; total_n += (long)((tier == "thorough" ? sub.thorough_n : sub.quick_n) * scale); }
+  long total_n = 0; double fixed_share = 0;
+  for (auto &sub : prop.subs) {
+    if (!only.empty() && only != sub.name) continue;
+    if (sub.budget_share > 0) { fixed_share += sub.budget_share; continue; }
+    total_n += (long)((tier == "thorough" ? sub.thorough_n : sub.quick_n) * scale);
+  }
+  if (fixed_share > 0.9) fixed_share = 0.9;
   mkdir(replay_dir.c_str(), 0755);
   if (!emit_dir.empty()) mkdir(emit_dir.c_str(), 0755);
 
@@ -105,9 +110,11 @@ int main(int argc, char **argv) {
     n = (int)(n * scale);
     if (!emit_dir.empty()) n = emit_count;
     if (n <= 0) continue;
-    int nrounds = (!emit_dir.empty() || n < 4 * rounds) ? 1 : rounds;
+    int nrounds = (!emit_dir.empty() || sub.budget_share > 0 || n < 4 * rounds) ? 1 : rounds;
+    long budget_skipped = 0;     // budget_share sub-properties: generated cases not evaluated because the share was used up
     int per_round = (n + nrounds - 1) / nrounds, rounds_done = 0;
-    double sub_budget = budget > 0 && total_n > 0 ? budget * (double)n / (double)total_n : 0;
+    double sub_budget = budget <= 0 ? 0 : sub.budget_share > 0 ? budget * sub.budget_share
+                        : total_n > 0 ? budget * (1 - fixed_share) * (double)n / (double)total_n : 0;
     auto sub_t0 = std::chrono::steady_clock::now();
     bool ok = true;
     bool failing = false;        // a failing case has been seen: we are shrinking
@@ -146,6 +153,8 @@ int main(int argc, char **argv) {
         double since = std::chrono::duration<double>(std::chrono::steady_clock::now() - fail_t0).count();
         if (++shrink_evals > shrink_budget || since > shrink_seconds) return;
       }
+      if (!failing && sub.budget_share > 0 && sub_budget > 0 && st.evaluations >= 1 &&
+          std::chrono::duration<double>(std::chrono::steady_clock::now() - sub_t0).count() > sub_budget) { budget_skipped++; return; }
       Outcome o = run_case(sub, c);
       if (!failing) st.record(c, o);
       if (o.kind == Outcome::INCONCLUSIVE && !failing) {
@@ -185,9 +194,9 @@ int main(int argc, char **argv) {
     if (!firstsub) out += ",";
     firstsub = false;
     out += st.json(sub.name);
-    fprintf(stderr, "[%s/%s] evals=%ld nontrivial=%zu known=%ld rounds=%d/%d %s\n", prop.id, sub.name, st.evaluations,
-            st.nt_hashes.size(), st.excluded_known, rounds_done, nrounds, ok ? "ok" : "FAILED");
-    if (rounds_done < nrounds && ok) truncated_subs++;
+    fprintf(stderr, "[%s/%s] evals=%ld nontrivial=%zu known=%ld rounds=%d/%d budget_skipped=%ld %s\n", prop.id, sub.name, st.evaluations,
+            st.nt_hashes.size(), st.excluded_known, rounds_done, nrounds, budget_skipped, ok ? "ok" : "FAILED");
+    if ((rounds_done < nrounds || budget_skipped > 0) && ok) truncated_subs++;
   }
   double wall = std::chrono::duration<double>(std::chrono::steady_clock::now() - t0).count();
   out += "],\"truncated_subs\":" + std::to_string(truncated_subs) + ",\"wall_s\":" + std::to_string(wall) + "}\n";
